@@ -223,13 +223,73 @@ def reader_oracle(case, impl):
     return None
 
 
+def pipeline(ctx):
+    """The splitter where vsb uses it: the real `upload_backup` (archiver thread, gpg, reader, splitter) feeding a mock
+    provider.  (a) the archiver fails (a dangling symbolic link in the backup directory, which tar follows): the
+    sequence of bodies must end with the error, never with a finalisation; (b) a stream longer than one 4 MiB hash
+    block, with and without a request-size limit: the finalisation carries the size and the checksum of exactly the
+    bytes of the bodies."""
+    import os, random, hashlib
+    from props import c04, upload_common as uc
+    stats = {'upstream_failure_runs': 0, 'long_stream_runs': 0}
+    def run(w, home, g, b, bdir, mx, chunked, out):
+        return core.run_lines(core.harness_exe(ctx), [core.req('upbackup', {'backup_path': bdir, 'group': g, 'name': b, 'passphrase': 'pw', 'max': mx,
+                                                                            'chunked': chunked, 'out': out})],
+                              env=dict(os.environ, GNUPGHOME=home), timeout=300)[0]
+    for i, (size, mx) in enumerate([(300000, 65536), (300000, None), (2000, 7)] if ctx.tier == 'quick' else
+                                   [(s_, m_) for s_ in (0, 2000, 300000, 2000000) for m_ in (None, 7, 4096, 65536, 1 << 20)]):
+        w, g, b, bdir = c04.make_backup(ctx, 1700 + i, random.Random(ctx.seed * 7 + i), big=size)
+        home = uc.make_gnupghome(w.base)
+        try:
+            os.symlink('/nonexistent/target-of-stray-link', os.path.join(bdir, 'zz-stray-link'))
+            o = run(w, home, g, b, bdir, mx, i % 2 == 0, os.path.join(w.base, 'cipher.bin'))
+            case = {'kind': 'pipeline-upstream-failure', 'size': size, 'max': mx}
+            stats['upstream_failure_runs'] += 1
+            if not isinstance(o, dict):
+                ctx.violation('runtime', 'harness failure: %s' % str(o)[:200], {'case': case}, found_input=False)
+            elif o.get('final') is not None or o.get('result') == 'ok':
+                ctx.violation('property', 'the archiver failed (%s) but the sequence of bodies was finalised with %s instead of ending with the error'
+                              % ((o.get('logs') or [''])[-1:] , o.get('final')), {'case': case, 'result': o.get('result'), 'error': o.get('error')})
+            elif not o.get('stream_error'):
+                ctx.violation('property', 'the archiver failed but the provider saw neither an error nor a finalisation', {'case': case})
+        finally:
+            uc.kill_agent(home)
+            w.cleanup()
+    for i, mx in enumerate([None, 3 * 1024 * 1024 + 11] if ctx.tier == 'quick' else [None, 1 << 20, 4 * 1024 * 1024, 4 * 1024 * 1024 + 1, 5000001]):
+        w, g, b, bdir = c04.make_backup(ctx, 1750 + i, random.Random(ctx.seed * 11 + i), big=4 * 1024 * 1024 + 600000)
+        home = uc.make_gnupghome(w.base)
+        try:
+            out = os.path.join(w.base, 'cipher.bin')
+            o = run(w, home, g, b, bdir, mx, True, out)
+            case = {'kind': 'pipeline-long-stream', 'max': mx}
+            stats['long_stream_runs'] += 1
+            if not isinstance(o, dict) or o.get('result') != 'ok':
+                ctx.violation('property', 'upload_backup of a %d-byte backup failed without any fault: %s' % (4 * 1024 * 1024 + 600000, str(o)[:200]), {'case': case})
+                continue
+            blob = open(out, 'rb').read()
+            fin = o.get('final') or {}
+            if fin.get('total') != len(blob) or fin.get('checksum') != c04.dropbox_content_hash(blob):
+                ctx.violation('property', 'the finalisation (%s) does not carry the size %d and the block checksum of the bytes of the bodies' % (fin, len(blob)), {'case': case})
+            sizes = [bd['len'] for bd in o['bodies']]
+            want = [len(blob)] if mx is None else [mx] * (len(blob) // mx) + ([len(blob) % mx] if len(blob) % mx else [])
+            if sizes != want:
+                ctx.violation('property', 'body sizes %s differ from %s' % (sizes[:5], want[:5]), {'case': case})
+        finally:
+            uc.kill_agent(home)
+            w.cleanup()
+    return stats
+
+
 def check(ctx):
     aud = core.audit(ctx.prop)
     core.report_audit(ctx, aud)
     core.proof_coverage(ctx, aud)
-    bindir, err = core.build_impl(ctx, need_vsb=False)
+    bindir, err = core.build_impl(ctx)
     if bindir is None:
         ctx.violation('runtime', 'repository does not build: ' + err[-400:], {}, found_input=False)
+        return
+    if ctx.replay and str(json.load(open(ctx.replay))['case'].get('case', {}).get('kind', '')).startswith('pipeline'):
+        ctx.coverage.update({'evaluations': 1, 'pipeline': pipeline(ctx)})
         return
     if ctx.replay:
         cases = [json.load(open(ctx.replay))['case']['case']]
@@ -269,6 +329,7 @@ def check(ctx):
         'correspondence': {'split': st, 'streamread': st2},
         'disagreements_checked': st['cases'] + st2['cases'],
         'exhaustive': ctx.tier == 'thorough',
+        'pipeline': pipeline(ctx) if not ctx.replay else None,
         'explanation': 'thorough tier enumerates all block lists of <= 4 blocks of size 1..4 and samples 5-block lists of size 1..6',
     })
     ctx.assumptions += ['std::sync::mpsc rendezvous semantics (send fails iff the receiver is gone)',
